@@ -90,7 +90,7 @@ def _thomson_ref(SkA, e, sig2, nfft, cap=100):
     summed change of S is at most 0.0005 * sig2 or after `cap` passes.  SkA is (k, nfft).  Returns (passes, weights (nfft, k))."""
     S = (SkA[0] + SkA[1]) / 2
     Sold = np.zeros(nfft)
-    a = sig2 * (1 - e)
+    a = sig2 * (1 - np.minimum(e, 1.0))     # a concentration ratio of 1 + a few ulp counts as 1 (the noise term is never negative)
     w = np.ones((1, nfft)) * e[:, None]
     n = 0
     while np.sum(np.abs(S - Sold)) / nfft > 0.0005 * sig2 / float(nfft) and n < cap:
@@ -141,7 +141,7 @@ def oracle_pmtm(p):
             # Recover S from taper 0 and require that the same S reproduces every other taper's weight (no convergence assumed;
             # the iteration stops on a tolerance, so "the spectrum it converged to" is whatever it last evaluated).
             sig2 = float(np.sum(np.abs(x) ** 2) / N)
-            a = sig2 * (1 - e)
+            a = sig2 * (1 - np.minimum(e, 1.0))
             b0 = np.sqrt(np.clip(w[:, 0] / e[0], 0, None))
             den = 1 - b0 * e[0]
             ok = den > 1e-9
@@ -377,7 +377,7 @@ def gen(rng, nrng, tier):
         x, dk = gen_data(nrng, N, cplx, kind=wkinds[(i + i // 5) % 5])
         yield ("pmtm", {"x": x, "NW": NW, "k": [None, int(2 * NW) - 1, int(2 * NW)][(i // 5) % 3], "nfft": [N, 2 * N + 1, N + 4][i % 3],
                         "method": "adapt", "supplied": bool(i % 2), "dkind": dk})
-    if False:  # PENDING-FINDING constant record, NW=7: dpss gives eigenvalue 1+4.4e-16, adaptive weights reach 8.7 > 1/eigenvalue
+    if True:  # formerly PENDING-FINDING (fixed in the library, D30): constant record, NW=7: dpss gives eigenvalue 1+4.4e-16, adaptive weights reached 8.7 > 1/eigenvalue
         for cplx in (False, True):
             yield ("pmtm", {"x": np.full(64, 3.0) + (2j if cplx else 0), "NW": 7.0, "k": None, "nfft": 128, "method": "adapt",
                             "supplied": False, "dkind": "const"})
